@@ -301,7 +301,7 @@ class CFG:
         if not consistent:
             return False, cut
         import re as _re
-        wp = self.feasible_reach(target_block, lambda lit, b, i: (b, i) in cut, lambda a: _re.match(r"^[A-Za-z_][\w$.]*$", a) is not None, start=start)
+        wp = self.feasible_reach(target_block, lambda lit, b, i: (b, i) in cut, lambda a: _re.match(r"^\*?[A-Za-z_][\w$.]*$", a) is not None, start=start)
         return wp is None, cut
 
     def success_path_avoiding(self, cut_pred, start=None, struct_returns=False):
@@ -378,6 +378,7 @@ class CFG:
                 path.reverse()
                 return path
             fd = dict(facts)
+            facts_before = dict(facts)
             first = cur is init and start_index > 0
             if not first:
                 for nm in kills[b]:
@@ -410,6 +411,18 @@ class CFG:
                             fd[nm] = fd[src]          # copy: a = b
                             if "=" + src in fd:
                                 fd["=" + nm] = fd["=" + src]
+                    if cv is None and track(nm):
+                        # x = x + c  with a known x (counters like *size): handled for any lvalue
+                        r3 = n.children[1].strip()
+                        if r3.k == "BinaryOperator" and r3.j.get("op") in ("+", "-") and render(r3.children[0]) == nm and r3.children[1].const_value() is not None:
+                            old_v = facts_before.get("=" + nm)
+                            if isinstance(old_v, int):
+                                nv = old_v + (r3.children[1].const_value() if r3.j["op"] == "+" else -r3.children[1].const_value())
+                                fd["=" + nm] = nv
+                                fd[nm] = bool(nv)
+                    elif cv is not None and track(nm) and n.children[0].strip().k != "DeclRefExpr":
+                        fd[nm] = bool(cv)         # *size = 1
+                        fd["=" + nm] = cv
                 elif n.k == "DeclStmt":
                     for d in n.j.get("decls", []):
                         if d.get("init", -1) >= 0 and track(d["name"]):
